@@ -196,8 +196,11 @@ def cmd_run(args):
     if agg["runs"] != runs:
         raise HarnessError(f"ran {agg['runs']} of {runs} runs")
     # determinism slice: re-execute a few run indices in this process and in a fresh one
-    det = determinism_slice(prop, seed, tier, min(runs, 24 if tier == "quick" else 64))
-    fid = fidelity_slice(prop, seed, tier, min(runs, 12 if tier == "quick" else 200)) \
+    heavy = prop == "C13"
+    det = determinism_slice(prop, seed, tier, min(runs, (24 if tier == "quick" else 64) if not heavy
+                                                 else (16 if tier == "quick" else 32)), workers)
+    fid = fidelity_slice(prop, seed, tier, min(runs, (16 if tier == "quick" else 200) if not heavy
+                                               else (8 if tier == "quick" else 32)), workers) \
         if prop in ("C05", "C13", "C16") else {"runs_compared": 0, "note": "scenario does no file I/O"}
     known = load_known()
     directed = directed_known(prop, known)
@@ -242,49 +245,54 @@ def cmd_run(args):
     return 1 if new_viol else 0
 
 
-def determinism_slice(prop, seed, tier, n):
-    """Same run indices twice in-process and once in a fresh interpreter under
-    another PYTHONHASHSEED; fingerprints must be identical."""
+def _twice(prop, seed, tier, lo, hi):
     from . import runner
 
-    a = [runner.generate(prop, seed, tier, i).fingerprint for i in range(n)]
-    b = [runner.generate(prop, seed, tier, i).fingerprint for i in range(n)]
+    a = [runner.generate(prop, seed, tier, i).fingerprint for i in range(lo, hi)]
+    b = [runner.generate(prop, seed, tier, i).fingerprint for i in range(lo, hi)]
+    return a, b
+
+
+def determinism_slice(prop, seed, tier, n, workers=8):
+    """Same run indices twice within one process (each worker process executes its
+    indices twice) and once in fresh interpreters under another PYTHONHASHSEED;
+    all fingerprints must be identical."""
+    ctx = multiprocessing.get_context("fork")
+    step = max(1, -(-n // workers))
+    ranges = [(lo, min(n, lo + step)) for lo in range(0, n, step)]
+    with ProcessPoolExecutor(max_workers=workers, mp_context=ctx) as ex:
+        parts = [f.result() for f in [ex.submit(_twice, prop, seed, tier, lo, hi) for lo, hi in ranges]]
+    a = [x for p in parts for x in p[0]]
+    b = [x for p in parts for x in p[1]]
     if a != b:
         raise HarnessError("determinism: same seed gave different fingerprints in one process")
     env = dict(os.environ)
     env["PYTHONHASHSEED"] = "987"
-    p = subprocess.run([sys.executable, "-m", "dsim", "fingerprints", prop, tier, str(seed), str(n)],
-                       cwd=VERIF, env=env, capture_output=True, text=True, timeout=600)
-    c = [l for l in p.stdout.split() if len(l) == 64]
+    procs = [subprocess.Popen([sys.executable, "-m", "dsim", "fingerprints", prop, tier, str(seed), str(hi),
+                               "--lo", str(lo)], cwd=VERIF, env=env, stdout=subprocess.PIPE,
+                              stderr=subprocess.PIPE, text=True) for lo, hi in ranges]
+    c = []
+    err = ""
+    for pr in procs:
+        o, e = pr.communicate(timeout=1800)
+        c.extend(l for l in o.split() if len(l) == 64)
+        err += e[-300:]
     if c != a:
-        raise HarnessError(f"determinism: fresh interpreter disagrees (rc={p.returncode}) {p.stderr[-1000:]}")
+        raise HarnessError(f"determinism: fresh interpreter disagrees {err[-800:]}")
     return {"runs_checked": n, "in_process_twice": "identical", "fresh_interpreter_other_hashseed": "identical"}
 
 
-def fidelity_slice(prop, seed, tier, n):
+def fidelity_slice(prop, seed, tier, n, workers=8):
     """Stub fidelity (DESIGN s3.8): the same runs on SimFS and on a real scratch
     directory must have identical fingerprints (which cover every step outcome,
     every object state and the final bytes of every file)."""
-    import shutil
-    import tempfile
-    from . import runner, simfs
-
-    over = {"xio": False}
-    same = 0
-    with_files = 0
-    for i in range(n):
-        a = runner.generate(prop, seed, tier, i, cfg_override=over)
-        root = tempfile.mkdtemp(prefix="dsim_realfs_")
-        try:
-            b = runner.generate(prop, seed, tier, i, fs=simfs.RealFS(root), cfg_override=over)
-        finally:
-            shutil.rmtree(root, ignore_errors=True)
-        if a.fingerprint != b.fingerprint:
-            raise HarnessError(f"stub fidelity: run {i} of {prop} differs between SimFS and a real directory")
-        same += 1
-        if a.stats.get("fs_opens", 0):
-            with_files += 1
-    return {"runs_compared": same, "runs_with_file_io": with_files, "result": "identical fingerprints"}
+    ctx = multiprocessing.get_context("fork")
+    step = max(1, -(-n // workers))
+    with ProcessPoolExecutor(max_workers=workers, mp_context=ctx) as ex:
+        parts = [f.result() for f in [ex.submit(_fid_range, prop, seed, tier, lo, min(n, lo + step))
+                                      for lo in range(0, n, step)]]
+    return {"runs_compared": sum(p[0] for p in parts), "runs_with_file_io": sum(p[1] for p in parts),
+            "result": "identical fingerprints"}
 
 
 def _fid_range(prop, seed, tier, lo, hi):
